@@ -138,15 +138,15 @@ inductive Ser
   | code (salted : Bool) (name : Name) (tok : Tok) (refs : List Name)   -- `fn_code_hash`
   | value (v : Tok)                                                    -- `GlobalVariableHashRule`
   | rules (s : List Char)                                              -- `_recompute_version`
-  | explicit (e : List Char)                                           -- explicit version of a dependency
+  | explicit (name : Name) (e : List Char)                             -- explicit version of a dependency (with its name, fix F23)
 deriving DecidableEq, Repr
 
-/-- `compute_hash` of a rule: `None` for undefined symbols; a digest of the explicit version string for an
-    explicitly versioned memento function (fix F17; the string itself entered verbatim before);
-    otherwise a digest of the code / value -/
+/-- `compute_hash` of a rule: `None` for undefined symbols; a digest of "name#version" for an
+    explicitly versioned memento function (fix F17: the string itself entered verbatim before; fix F23: the
+    digest did not cover the name, see `Props/C01.lean`); otherwise a digest of the code / value -/
 def ruleHash (H : Ser → List Char) (P : Prog) (x : Node) : Option (List Char) :=
   match x.kind, lookup P x.target with
-  | .mfn, some (.memento (some e) _ _) => some (H (.explicit e))
+  | .mfn, some (.memento (some e) _ _) => some (H (.explicit x.target e))
   | .mfn, some (.memento none tok refs) => some (H (.code true x.target tok refs))
   | .fn, some (.plain _ tok refs) => some (H (.code false x.target tok refs))
   | .gvar, some (.var (some v)) => some (H (.value v))
